@@ -6,7 +6,7 @@
 From Salsa Require Import Base.
 From Salsa.Kern Require Import CoreK.
 From Salsa.Persist Require Import Model Spec ProofsRoundtrip ProofsFlatten Statement Examples.
-From Salsa.Persist Require PInvTop PTop.
+From Salsa.Persist Require PInvTop PTop LTop.
 
 (* Round trip, for ALL states: deserialising the serialised database into a fresh one keeps the
    runtime revisions, every input slot, and for every persisted function every memo that has a
@@ -344,48 +344,52 @@ Print Assumptions C26_results_no_restore.
 
 (* (P2) restore after snapshot re-establishes the invariant in the fresh database, from ANY state
    that satisfies the invariant (PInvTop.OK: there are ghost histories of inputs and durabilities
-   for which PInv.DInv holds) with no query in flight, in two settings:
-   - the persisted functions only call persisted functions (nothing is flattened away), all
-     durabilities;
-   - FLAT MODE (fm = true: all durabilities LOW): every program, every choice of persisted
-     functions; the dependencies that the snapshot flattened away — to any depth — become
-     observers at the revisions their memos were verified at (PInv.good), and the restored memo
-     is covered by its serialised edges.
+   and ghost stamps of dropped memos for which PInv.DInv holds) with no query in flight, for ALL
+   durabilities, in two settings:
+   - the persisted functions only call persisted functions (nothing is flattened away);
+   - the functions that are not persisted only call functions that are not persisted: the
+     dependencies that the snapshot flattened away — to any depth — become observers at the
+     revisions their memos were verified at, or, when such a memo is older than its caller's (the
+     caller was validated by the durability short-cut; PInv.mo_sync, PInv.cconst), at the
+     caller's revision (PInv.good, PTop.exp_good), and the restored memo is covered by its
+     serialised edges.
+   (For EVERY program with all durabilities LOW: the same in the development of
+   Persist/LInv*.v, LTop.restore_flat_ok.)
    The revision rewind is sound: the inputs come back with their stamps.  If the external state
    is the one the snapshot saw the restored database is ready for requests (PTop.state_ok false),
    otherwise it is after a new revision (PTop.state_ok true). *)
 Theorem C26_restore_reestablishes_invariant :
   forall (prog : qkey -> body) (pfam : N -> bool) (lru0 : N -> lru_state) (rank : qkey -> nat)
-         (NF sfuel : nat) (fm : bool),
+         (NF sfuel : nat),
     calls_below prog rank ->
-    persisted_closed prog pfam \/ (fm = true /\ forall p, (S (rank p) < sfuel)%nat) ->
+    persisted_closed prog pfam \/ (np_closed prog pfam /\ forall p, (S (rank p) < sfuel)%nat) ->
     forall s ext : db,
       d_stack s = [] ->
-      (PInvTop.OK_d prog NF fm s ->
-       PTop.state_ok prog NF fm true (restore (Model.snapshot pfam sfuel s) ext lru0)) /\
-      (PInvTop.OK prog NF fm s -> d_cell ext = d_cell s ->
-       PTop.state_ok prog NF fm false (restore (Model.snapshot pfam sfuel s) ext lru0)).
+      (PInvTop.OK_d prog NF (fun q => pfam (fst q)) s ->
+       PTop.state_ok prog pfam NF true (restore (Model.snapshot pfam sfuel s) ext lru0)) /\
+      (PInvTop.OK prog NF (fun q => pfam (fst q)) s -> d_cell ext = d_cell s ->
+       PTop.state_ok prog pfam NF false (restore (Model.snapshot pfam sfuel s) ext lru0)).
 Proof.
-  intros prog pfam lru0 rank NF sfuel fm Hrank Hc s ext Hst.
-  assert (G : PTop.restore_good prog pfam lru0 NF sfuel fm).
-  { destruct Hc as [Hc | [Hf Hs]].
-    - exact (PTop.restore_good_closed prog pfam lru0 rank (PSem.calls_below_tb prog rank Hrank) NF sfuel fm Hc).
-    - exact (PTop.restore_good_flat prog pfam lru0 rank (PSem.calls_below_tb prog rank Hrank) NF sfuel fm Hf Hs). }
+  intros prog pfam lru0 rank NF sfuel Hrank Hc s ext Hst.
+  assert (G : PTop.restore_good prog pfam lru0 NF sfuel).
+  { destruct Hc as [Hc | [Hn Hs]].
+    - exact (PTop.restore_good_closed prog pfam lru0 rank (PSem.calls_below_tb prog rank Hrank) NF sfuel Hc).
+    - exact (PTop.restore_good_np prog pfam lru0 rank (PSem.calls_below_tb prog rank Hrank) NF sfuel Hn Hs). }
   split.
   - intros Hok. exact (proj1 G s ext Hok Hst).
   - intros Hok He. exact (proj2 G s ext Hok Hst He).
 Qed.
 Check C26_restore_reestablishes_invariant :
   forall (prog : qkey -> body) (pfam : N -> bool) (lru0 : N -> lru_state) (rank : qkey -> nat)
-         (NF sfuel : nat) (fm : bool),
+         (NF sfuel : nat),
     calls_below prog rank ->
-    persisted_closed prog pfam \/ (fm = true /\ forall p, (S (rank p) < sfuel)%nat) ->
+    persisted_closed prog pfam \/ (np_closed prog pfam /\ forall p, (S (rank p) < sfuel)%nat) ->
     forall s ext : db,
       d_stack s = [] ->
-      (PInvTop.OK_d prog NF fm s ->
-       PTop.state_ok prog NF fm true (restore (Model.snapshot pfam sfuel s) ext lru0)) /\
-      (PInvTop.OK prog NF fm s -> d_cell ext = d_cell s ->
-       PTop.state_ok prog NF fm false (restore (Model.snapshot pfam sfuel s) ext lru0)).
+      (PInvTop.OK_d prog NF (fun q => pfam (fst q)) s ->
+       PTop.state_ok prog pfam NF true (restore (Model.snapshot pfam sfuel s) ext lru0)) /\
+      (PInvTop.OK prog NF (fun q => pfam (fst q)) s -> d_cell ext = d_cell s ->
+       PTop.state_ok prog pfam NF false (restore (Model.snapshot pfam sfuel s) ext lru0)).
 Print Assumptions C26_restore_reestablishes_invariant.
 
 (* (P3) C26_results_full_statement with ONE more hypothesis, persisted_closed: histories with
@@ -431,7 +435,7 @@ Theorem C26_results_low :
       Forall low_op ops -> wf_ops false false ops ->
       known_class_free prog noeq pfam fams lru0 sfuel fuel (pinit iv (fun _ => 0) lru0) ops ->
       results_ok prog noeq pfam fams lru0 NF sfuel fuel (pinit iv (fun _ => 0) lru0) ops.
-Proof. exact PTop.results_low. Qed.
+Proof. exact LTop.results_low. Qed.
 Check C26_results_low :
   forall (prog : qkey -> body) (noeq : qkey -> bool) (pfam : N -> bool) (fams : list N)
          (lru0 : N -> lru_state) (rank : qkey -> nat),
@@ -442,6 +446,36 @@ Check C26_results_low :
       known_class_free prog noeq pfam fams lru0 sfuel fuel (pinit iv (fun _ => 0) lru0) ops ->
       results_ok prog noeq pfam fams lru0 NF sfuel fuel (pinit iv (fun _ => 0) lru0) ops.
 Print Assumptions C26_results_low.
+
+(* (P3'') C26_results_full_statement with ONE more hypothesis, for ALL durabilities: the
+   functions that are not persisted only call functions that are not persisted (np_closed) —
+   the usual shape: persisted entry points over non-persisted helpers over inputs.  Dependencies
+   flattened away to any depth, memos validated by the durability short-cut while their
+   dependencies' memos stayed older, durability-changing writes, repeated snapshot/restore
+   rounds.  Non-vacuity: Examples.ex_high_results (a HIGH memo validated by the short-cut before
+   the snapshot, flattened, restored, then invalidated by a HIGH write). *)
+Theorem C26_results_np :
+  forall (prog : qkey -> body) (noeq : qkey -> bool) (pfam : N -> bool) (fams : list N)
+         (lru0 : N -> lru_state) (rank : qkey -> nat),
+    calls_below prog rank -> forall NF : nat, (forall q, (rank q < NF)%nat) ->
+    forall fuel sfuel : nat, (forall p, (rank p < fuel)%nat) -> (forall p, (S (rank p) < sfuel)%nat) ->
+    np_closed prog pfam ->
+    forall (iv : ikey -> val) (idur : ikey -> dur) (ops : list op),
+      (forall i, idur i <= 3) -> Forall dur_op ops -> wf_ops false false ops ->
+      known_class_free prog noeq pfam fams lru0 sfuel fuel (pinit iv idur lru0) ops ->
+      results_ok prog noeq pfam fams lru0 NF sfuel fuel (pinit iv idur lru0) ops.
+Proof. exact PTop.results_np. Qed.
+Check C26_results_np :
+  forall (prog : qkey -> body) (noeq : qkey -> bool) (pfam : N -> bool) (fams : list N)
+         (lru0 : N -> lru_state) (rank : qkey -> nat),
+    calls_below prog rank -> forall NF : nat, (forall q, (rank q < NF)%nat) ->
+    forall fuel sfuel : nat, (forall p, (rank p < fuel)%nat) -> (forall p, (S (rank p) < sfuel)%nat) ->
+    np_closed prog pfam ->
+    forall (iv : ikey -> val) (idur : ikey -> dur) (ops : list op),
+      (forall i, idur i <= 3) -> Forall dur_op ops -> wf_ops false false ops ->
+      known_class_free prog noeq pfam fams lru0 sfuel fuel (pinit iv idur lru0) ops ->
+      results_ok prog noeq pfam fams lru0 NF sfuel fuel (pinit iv idur lru0) ops.
+Print Assumptions C26_results_np.
 
 (* (P4) strictly: in the three settings above the ONLY panic of the base model that can unwind a
    request is an injected fault while some fault switch is on — in particular the
@@ -455,7 +489,8 @@ Theorem C26_results_strict :
     forall fuel sfuel : nat, (forall p, (rank p < fuel)%nat) ->
     (forall (iv : ikey -> val) (idur : ikey -> dur) (ops : list op),
        (forall i, idur i <= 3) -> Forall dur_op ops -> wf_ops false false ops ->
-       ~ In ORestore ops \/ persisted_closed prog pfam ->
+       (~ In ORestore ops \/ persisted_closed prog pfam \/
+        (np_closed prog pfam /\ forall p, (S (rank p) < sfuel)%nat)) ->
        known_class_free prog noeq pfam fams lru0 sfuel fuel (pinit iv idur lru0) ops ->
        results_ok_strict prog noeq pfam fams lru0 NF sfuel fuel (pinit iv idur lru0) ops) /\
     ((forall p, (S (rank p) < sfuel)%nat) ->
@@ -465,11 +500,10 @@ Theorem C26_results_strict :
        results_ok_strict prog noeq pfam fams lru0 NF sfuel fuel (pinit iv (fun _ => 0) lru0) ops).
 Proof.
   intros prog noeq pfam fams lru0 rank Hrank NF Hb fuel sfuel Hf. split.
-  - intros iv idur ops Hid Hd Hw [Hn | Hc] Hk.
-    + exact (PTop.results_no_restore_strict prog noeq pfam fams lru0 rank Hrank NF Hb fuel sfuel Hf iv idur ops Hid Hd Hw Hn Hk).
-    + exact (PTop.results_closed_strict prog noeq pfam fams lru0 rank Hrank NF Hb fuel sfuel Hf Hc iv idur ops Hid Hd Hw Hk).
+  - intros iv idur ops Hid Hd Hw Hcase Hk.
+    exact (PTop.results_strict prog noeq pfam fams lru0 rank Hrank NF Hb fuel sfuel Hf iv idur ops Hid Hd Hw Hcase Hk).
   - intros Hs iv ops Hl Hw Hk.
-    exact (PTop.results_low_strict prog noeq pfam fams lru0 rank Hrank NF Hb fuel sfuel Hf Hs iv ops Hl Hw Hk).
+    exact (LTop.results_low_strict prog noeq pfam fams lru0 rank Hrank NF Hb fuel sfuel Hf Hs iv ops Hl Hw Hk).
 Qed.
 Check C26_results_strict :
   forall (prog : qkey -> body) (noeq : qkey -> bool) (pfam : N -> bool) (fams : list N)
@@ -478,7 +512,8 @@ Check C26_results_strict :
     forall fuel sfuel : nat, (forall p, (rank p < fuel)%nat) ->
     (forall (iv : ikey -> val) (idur : ikey -> dur) (ops : list op),
        (forall i, idur i <= 3) -> Forall dur_op ops -> wf_ops false false ops ->
-       ~ In ORestore ops \/ persisted_closed prog pfam ->
+       (~ In ORestore ops \/ persisted_closed prog pfam \/
+        (np_closed prog pfam /\ forall p, (S (rank p) < sfuel)%nat)) ->
        known_class_free prog noeq pfam fams lru0 sfuel fuel (pinit iv idur lru0) ops ->
        results_ok_strict prog noeq pfam fams lru0 NF sfuel fuel (pinit iv idur lru0) ops) /\
     ((forall p, (S (rank p) < sfuel)%nat) ->
@@ -527,17 +562,18 @@ Check C26_example_results :
   results_ok prog_f4 Examples.noeq Examples.pfam [1] lru2 FUEL FUEL FUEL (pinit Examples.iv (fun _ => 0) lru2) ops_f4.
 Print Assumptions C26_example_results.
 
-(* computed only (NOT an instance of a theorem: durabilities above LOW together with flattening
-   is the open case; replayed on the real crate with the same values, events and states): a
-   HIGH-durability persisted memo validated by the durability short-cut before the snapshot,
-   flattened through a non-persisted function, restored; a synthetic HIGH write leaves it valid
-   (validated through its flattened leaf), a HIGH write to the leaf invalidates it, and so does
-   a write that makes the leaf LOW again *)
+(* non-vacuity of C26_results_np (replayed on the real crate with the same values, events and
+   states): a HIGH-durability persisted memo validated by the durability short-cut before the
+   snapshot, flattened through a non-persisted function, restored; a synthetic HIGH write leaves
+   it valid (validated through its flattened leaf), a HIGH write to the leaf invalidates it, and
+   so does a write that makes the leaf LOW again: the theorem applies, and this is what the
+   requests return *)
 Theorem C26_example_high_durability_flattened :
   let r := run prog_pq [] nolru ops_high in
+  results_ok prog_pq Examples.noeq Examples.pfam [] nolru FUEL FUEL FUEL (pinit Examples.iv (fun _ => 0) nolru) ops_high /\
   snd r = [POk 0; POk 5; POk 0; POk 5; POk 0; POk 0; POk 5; POk 0; POk 5; POk 0; POk 8; POk 0; POk 0;
            POk 0; POk 9; POk 8] /\
-  wf_ops false false ops_high /\
+  wf_ops false false ops_high /\ Forall dur_op ops_high /\
   List.rev (d_log (ps_db (fst r)))
   = [EvExec (0, 0); EvExec (3, 0); EvValidate (0, 0); EvValidate (0, 0); EvExec (0, 0); EvExec (3, 0);
      EvExec (0, 0); EvExec (3, 0)] /\
@@ -546,9 +582,10 @@ Theorem C26_example_high_durability_flattened :
 Proof. exact ex_high_results. Qed.
 Check C26_example_high_durability_flattened :
   let r := run prog_pq [] nolru ops_high in
+  results_ok prog_pq Examples.noeq Examples.pfam [] nolru FUEL FUEL FUEL (pinit Examples.iv (fun _ => 0) nolru) ops_high /\
   snd r = [POk 0; POk 5; POk 0; POk 5; POk 0; POk 0; POk 5; POk 0; POk 5; POk 0; POk 8; POk 0; POk 0;
            POk 0; POk 9; POk 8] /\
-  wf_ops false false ops_high /\
+  wf_ops false false ops_high /\ Forall dur_op ops_high /\
   List.rev (d_log (ps_db (fst r)))
   = [EvExec (0, 0); EvExec (3, 0); EvValidate (0, 0); EvValidate (0, 0); EvExec (0, 0); EvExec (3, 0);
      EvExec (0, 0); EvExec (3, 0)] /\
@@ -557,8 +594,9 @@ Check C26_example_high_durability_flattened :
 Print Assumptions C26_example_high_durability_flattened.
 
 (* the positive statement outside the known class without an extra hypothesis, kept visible.
-   PROVED: without restore (C26_results_no_restore), with persisted_closed (C26_results_partial),
-   with LOW durabilities (C26_results_low).  NOT proved: restore when a persisted function calls a
-   non-persisted one AND some durability is above LOW (see Persist/Statement.v): *)
+   PROVED: without restore (C26_results_no_restore); with persisted_closed (C26_results_partial)
+   or np_closed (C26_results_np), all durabilities; for EVERY program with LOW durabilities
+   (C26_results_low).  NOT proved: a program in which a non-persisted function calls a persisted
+   one, with some durability above LOW (see Persist/Statement.v): *)
 Check C26_results_full_statement : Prop.
 Print C26_results_full_statement.
